@@ -54,7 +54,26 @@ class C04(C01):
         return super().run_impl(case)
 
     def requests(self, case: dict, impl: Any) -> List[str]:
-        return [] if case["kind"] == "stack" else super().requests(case, impl)
+        if case["kind"] == "stack":
+            return []
+        reqs = super().requests(case, impl)
+        if reqs:
+            # the hypothesis of T_C04_parity: the lattice direction signs orient the block directions coherently
+            it = impl["internals"]
+            o = []
+            for b in impl["order"]:
+                for a in range(3):
+                    o.append("1" if pc.axis_direction(case["asm"]["blocks"][b]["rot"], a)[1] < 0 else "0")
+            n = len(it["verts"])
+            reqs.insert(0, f"c01.orient {n} " + ";".join(",".join(map(str, v)) for v in it["verts"]) + " " + ",".join(o))
+        return reqs
+
+    def compare(self, case: dict, impl: Any, model: List[str]) -> Any:
+        if model and model[0].startswith("coh"):
+            if model[0] != "coh 1":
+                return f"orientation by lattice direction signs is not coherent in the model: {model[0]}"
+            model = model[1:]
+        return super().compare(case, impl, model)
 
     def classify(self, case, impl):
         return "stack" if case["kind"] == "stack" else super().classify(case, impl)
